@@ -313,7 +313,7 @@ def initW (body : List Nat) : WSt :=
 def decodeFile (convert : Bool) (body : List Nat) : Except Err (List Int) :=
   if body.take 4 ≠ MAGIC then .error (.unsupported "not a shorten stream")
   else match body.drop 4 with
-    | [] => .error (.unsupported "no version byte (struct.error)")
+    | [] => .error (.io .eof) -- `if len(inpbuf) < 5: raise error`
     | vb :: _ =>
       if versionOk (sbyte vb) then
         match (mainProg (sbyte vb).toNat convert (8 * body.length + 1)).run (uvarW (8 * body.length + 1)) (initW body) with
@@ -324,7 +324,7 @@ def decodeFile (convert : Bool) (body : List Nat) : Except Err (List Int) :=
 def decodeFileM (convert : Bool) (body : List Nat) : Except Err (List Int × Bool) :=
   if body.take 4 ≠ MAGIC then .error (.unsupported "not a shorten stream")
   else match body.drop 4 with
-    | [] => .error (.unsupported "no version byte (struct.error)")
+    | [] => .error (.io .eof) -- `if len(inpbuf) < 5: raise error`
     | vb :: _ =>
       if versionOk (sbyte vb) then
         match (mainProg (sbyte vb).toNat convert (8 * body.length + 1)).runM (uvarW (8 * body.length + 1)) (initW body) true with
